@@ -8,11 +8,16 @@
                       index draws), writes, arrivals, reads, deadline/buffer settings and Close.
    ce                 socket faults: ce k = "Close() of socket k reports an error"; every theorem
                       about step / run holds for EVERY such assignment.
+   resolve_hop_addr   ResolveUDPHopAddr (model/C19_Addr.v): split = what net.SplitHostPort returned, resolver =
+                      net.ResolveIPAddr (ANY function from hosts to (IP bytes, zone) or failure: IPv4 in 4 or
+                      16 bytes, IPv6, zone-scoped, the result of a DNS lookup); addrs = UDPHopAddr.addrs().
+   astep / arun       the hop LTS over the address list itself: a socket write carries the whole
+                      destination address Addrs[addrIndex] (AOWrite k dst d), not only its port.
    xstep / xrun       the hop LTS together with the receiver goroutines (model/C19_Recv.v): alive x
                       says, per socket, whether its recvLoop is still running; XRecv k r is one turn
                       of socket k's loop, r what the socket's ReadFrom returned.  xreachable: after any
                       action sequence in which sockets report a permanent read error only once closed. *)
-From Hy Require Import lib.Res gen.ParamsC19 model.C19_PortUnion model.C19_Hop model.C19_Recv proof.C19_PortUnion proof.C19_Grammar proof.C19_Hop proof.C19_Recv.
+From Hy Require Import lib.Res lib.Bytes gen.ParamsC19 model.C19_PortUnion model.C19_Hop model.C19_Recv model.C19_Addr proof.C19_PortUnion proof.C19_Grammar proof.C19_Hop proof.C19_Recv proof.C19_Addr.
 From Coq Require Import ZArith List Sorting.Sorted Strings.String.
 Import ListNotations.
 Local Open Scope N_scope.
@@ -92,6 +97,68 @@ Proof.
   split; [now apply Hd|exact H2].
 Qed.
 Print Assumptions C19_writes_in_set.
+
+(* The "server IP" half.  Whatever the host part resolves to (any resolver: any IP bytes of any
+   family, with or without a zone): a hop address with an accepted port expression resolves, its IP
+   is the resolved IP, its Ports the denoted set in ascending order without repetition, and addrs()
+   is exactly one address (that IP, port, no zone) per port of the set: nothing else, nothing twice.
+   A malformed port expression, a host that does not resolve and an unsplittable address are
+   rejected. *)
+Theorem C19_resolved_address_list : forall host portstr resolver,
+  (forall i z u, resolver host = Some (i, z) -> parse_raw portstr = Some u ->
+     exists a, resolve_hop_addr (Some (host, portstr)) resolver = inl a /\
+       ha_ip a = i /\ ha_portstr a = portstr /\ hop_ports portstr = Some (ha_ports a) /\
+       ha_ports a <> [] /\ NoDup (ha_ports a) /\ StronglySorted N.lt (ha_ports a) /\
+       (forall p, In p (ha_ports a) <-> denotes u p) /\
+       addrs a = map (fun p => mkUA i p []) (ha_ports a) /\
+       (forall dst, In dst (addrs a) <-> ua_ip dst = i /\ ua_zone dst = [] /\ denotes u (ua_port dst)) /\
+       NoDup (addrs a)) /\
+  (forall a, resolve_hop_addr (Some (host, portstr)) resolver = inl a ->
+     exists i z v, resolver host = Some (i, z) /\ parse_port_union portstr = Some v /\ a = mkHA i (ports v) portstr) /\
+  (resolver host = None -> resolve_hop_addr (Some (host, portstr)) resolver = inr HEResolve) /\
+  (forall i z, resolver host = Some (i, z) -> parse_raw portstr = None ->
+     resolve_hop_addr (Some (host, portstr)) resolver = inr HEPort) /\
+  resolve_hop_addr None resolver = inr HESplit.
+Proof.
+  intros host portstr resolver.
+  split; [intros i z u; exact (resolve_spec host portstr resolver i z u)|].
+  split.
+  - intros a Ha. destruct (resolve_ok _ _ _ Ha) as (h & p & i & z & v & E & Hr & Hp & ->).
+    inversion E; subst. exists i, z, v. repeat split; assumption.
+  - split; [|split; [|reflexivity]].
+    + intros Hr. unfold resolve_hop_addr. rewrite Hr. reflexivity.
+    + intros i z Hr Hp. unfold resolve_hop_addr. rewrite Hr.
+      apply parse_none_iff in Hp. rewrite Hp. reflexivity.
+Qed.
+Print Assumptions C19_resolved_address_list.
+
+(* Every socket write of every run (any interleaving of hops, failed listens, index draws, writes,
+   arrivals, reads, setters, Close; any socket faults) of a conn built from a resolved hop address is
+   handed the destination (server IP, port, no zone): the IP bytes are the resolved ones (equal in
+   the sense of net.IP.Equal in particular), the port lies in the denoted set, and the destination
+   is Addrs[addrIndex] of the state the write found.  The run, with destinations reduced to their
+   ports, is a run of the port-level LTS, so C19_writes_in_set and every theorem below hold of it. *)
+Theorem C19_writes_to_server_ip : forall host portstr resolver i z u a ce r0 s0 acts k dst d,
+  resolver host = Some (i, z) -> parse_raw portstr = Some u ->
+  resolve_hop_addr (Some (host, portstr)) resolver = inl a ->
+  ainit (addrs a) true r0 = Ok s0 ->
+  In (AOWrite k dst d) (snd (arun (addrs a) ce s0 acts)) ->
+  dst = mkUA i (ua_port dst) [] /\ ip_equal (ua_ip dst) i = true /\ denotes u (ua_port dst) /\
+  init (ha_ports a) true r0 = Ok s0 /\
+  In (OSockWrite k (ua_port dst) d) (snd (run (ha_ports a) ce s0 acts)) /\
+  exists pre post, acts = pre ++ AWrite d :: post /\
+    let s := fst (run (ha_ports a) ce s0 pre) in
+    closed s = false /\ k = cur s /\ S k = List.length (socks s) /\ sock_open (socks s) k = true /\
+    nth_error (addrs a) (idx s) = Some dst.
+Proof. exact writes_to_server. Qed.
+Print Assumptions C19_writes_to_server_ip.
+
+(* The LTS over the address list and the port-level LTS are the same machine: same states, and the
+   same boundary calls once a destination is reduced to its port. *)
+Theorem C19_address_lts_refines : forall az ce s l,
+  run (map ua_port az) ce s l = (fst (arun az ce s l), map erase (snd (arun az ce s l))).
+Proof. intros az ce s l. exact (arun_erase az ce l s). Qed.
+Print Assumptions C19_address_lts_refines.
 
 (* Construction: a failed listen gives an error and no socket; with an accepted expression and a
    successful listen the conn starts (no panic) with exactly one open socket. *)
